@@ -26,8 +26,12 @@ func (p Persist) Load(ctx context.Context, name string) ([]byte, error) {
 func (p Persist) Store(ctx context.Context, name string, bytes []byte) error {
 	path := filepath.Join(p.basepath, name)
 	_, err := os.Stat(path)
-	if !os.IsNotExist(err) {
+	if err == nil {
 		return nil
+	}
+	if !os.IsNotExist(err) {
+		// the name could not be looked up: that is not "already stored"
+		return err
 	}
 	// Write under a temporary name and rename, so that the final name only
 	// ever refers to complete contents, whatever happens during the write.
